@@ -4,8 +4,10 @@ from typing import TYPE_CHECKING
 
 import numpy as np
 import xarray as xr
-from scipy.special import erf
 
+from glotaran.builtin.megacomplexes.damped_oscillation.damped_oscillation_megacomplex import (
+    gaussian_convolved_oscillation,
+)
 from glotaran.builtin.megacomplexes.decay.irf import Irf
 from glotaran.builtin.megacomplexes.decay.irf import IrfMultiGaussian
 from glotaran.model import DatasetModel
@@ -252,22 +254,12 @@ def calculate_pfid_matrix_gaussian_irf(
     # we postpone the conversion because the global axis is
     # always expected to be in cm-1 for relevant experiments
     frequency_diff = (global_axis_value - frequencies) * 0.03 * 2 * np.pi
-    d = width**2
     k = rates + 1j * frequency_diff
-    dk = k * d
-    sqwidth = np.sqrt(2) * width
 
-    a = np.zeros((len(model_axis), len(rates)), dtype=np.complex128)
-    a[np.ix_(left_shifted_axis_indices, neg_idx)] = np.exp(
-        (-1 * left_shifted_axis[:, None] + 0.5 * dk[:]) * k[:]
+    osc = np.zeros((len(model_axis), len(rates)), dtype=np.complex128)
+    osc[np.ix_(left_shifted_axis_indices, neg_idx)] = gaussian_convolved_oscillation(
+        left_shifted_axis, k, width, anti_causal=True
     )
-
-    b = np.zeros((len(model_axis), len(rates)), dtype=np.complex128)
-    # For negative rates we flip the sign of the `erf` by using `-sqwidth` in lieu of `sqwidth`
-    b[np.ix_(left_shifted_axis_indices, neg_idx)] = 1 + erf(
-        (left_shifted_axis[:, None] - dk[:]) / -sqwidth
-    )
-
-    osc = -(a * b) * scale
+    osc *= -scale
 
     return np.concatenate((osc.real, osc.imag), axis=1)
